@@ -105,8 +105,14 @@ var ScalarVias = []string{
 	"random-high", "random-retry",
 	"add-self", "sub-self", "mul-self", "set-self", "cselect-self", "pow-self", "add-to-zero", "add-to-one", "sub-equal", "decode-rejected-range",
 	"unmarshal-rejected-range", "decodehex-rejected-range", "lessorequal-nil-recovered", "random-fault-recovered", "copy-then-change-copy", "set-then-change-source", "copy-from-then-change-source",
-	"arg-of-panicking-call", "argument-of-calls", "random-skip-then-fault-recovered",
+	"arg-of-panicking-call", "argument-of-calls", "random-skip-then-fault-recovered", "mul-special",
 }
+
+// MulSpecialIndex, when >= 0, fixes the pair of factors of the next "mul-special" plan (0..NMulSpecial-1) instead of drawing it.
+var MulSpecialIndex = -1
+
+// NMulSpecial is the number of factor pairs of the "mul-special" move.
+const NMulSpecial = 36
 
 // PlanScalarMove draws a transition through the given mutator.
 func PlanScalarMove(via string, r *gen.Rng) ScalarMove {
@@ -129,6 +135,18 @@ func PlanScalarMove(via string, r *gen.Rng) ScalarMove {
 		if from.Sign() == 0 {
 			from = big.NewInt(3)
 		}
+	case "mul-special":
+		// both factors from {0, 1, 2, n-1, n-2, (n+1)/2}: the joint special cases of a multiplication with fast paths
+		sp := []*big.Int{new(big.Int), big.NewInt(1), big.NewInt(2), new(big.Int).Sub(n, big.NewInt(1)), new(big.Int).Sub(n, big.NewInt(2)), new(big.Int).Rsh(new(big.Int).Add(n, big.NewInt(1)), 1)}
+		k := r.Intn(len(sp) * len(sp))
+		if MulSpecialIndex >= 0 {
+			k = MulSpecialIndex % (len(sp) * len(sp))
+		}
+
+		from = sp[k%len(sp)]
+		arg := sp[k/len(sp)]
+		to = oracle.Mod(new(big.Int).Mul(from, arg), n)
+		mv.Aux = hx(arg)
 	case "invert", "pow":
 		if to.Sign() == 0 {
 			to = big.NewInt(5)
@@ -214,7 +232,10 @@ func PlanScalarMove(via string, r *gen.Rng) ScalarMove {
 	}
 
 	mv.From, mv.To = hx(from), hx(to)
-	mv.Aux = hx(gen.Draw(r, n).X)
+
+	if a := hx(gen.Draw(r, n).X); mv.Aux == "" {
+		mv.Aux = a
+	}
 
 	if havoc && via == "random-skip-then-fault-recovered" {
 		// the source delivers a block that must be skipped (0 or n, by Cond), then Cond%32 more bytes, then fails
@@ -286,6 +307,12 @@ func ApplyScalarMove(s *secp256k1.Scalar, mv ScalarMove) {
 		s.Subtract(Scal(oracle.Mod(new(big.Int).Sub(from, to), n)))
 	case "mul":
 		s.Multiply(Scal(oracle.Mod(new(big.Int).Mul(to, new(big.Int).ModInverse(from, n)), n)))
+	case "mul-special":
+		if aux.Cmp(new(big.Int).Sub(n, big.NewInt(1))) == 0 {
+			s.Multiply(secp256k1.NewScalar().MinusOne()) // the argument as the library itself makes it
+		} else {
+			s.Multiply(Scal(aux))
+		}
 	case "setuint64":
 		s.SetUInt64(to.Uint64())
 	case "zero":
